@@ -585,8 +585,10 @@ def run(run, tier, replay=None):
         others = sorted(set(spell) - set(us))
         sp_pick = sorted(set(us) | set(rng.sample(others, len(others) // 4)))
         reduced = set(sp_pick) - table_names
-    sp_pick = sorted(set(sp_pick) | set(name_bad) & set(spell))
-    reduced -= set(name_bad)
+    # targeted search for a concrete capture: the mismatching spellings whose new python name is an identifier of the generated code first, all placements (at most 40 of them)
+    hot = sorted(name_bad, key=lambda sp: (pyname[sp] not in table_names, len(sp), sp))[:40]
+    sp_pick = sorted(set(sp_pick) | set(hot) & set(spell))
+    reduced -= set(hot)
     names = sorted(set(names) | set(sp_pick))
     scopes[NEUTRAL] = ["control"]
     scopes["ZqNeutral"] = ["control"]
